@@ -1,7 +1,7 @@
 SPECIFICATION MCSpec
 CONSTANTS
   Writers = {"w1"}
-  MaxOps = 4
+  MaxOps = 3
   Dev = {}
   Packer = "msgpack"
   AllowSelfColliding = FALSE
